@@ -1,7 +1,9 @@
 package sim
 
 import (
+	"bytes"
 	"context"
+	"regexp"
 	"encoding/json"
 	"fmt"
 	"os"
@@ -92,8 +94,12 @@ type Ghost struct {
 	Rev       int                    `json:"rev"`       // template revision the user last asked for
 	RolledBack bool                  `json:"rolledBack"`
 	Created   bool                   `json:"created"`
-	ReadyHigh int                    `json:"readyHigh"` // highest step index whose batch was reported Ready under the current canary revision
-	ReadyRev  string                 `json:"readyRev"`
+	// ReadySteps: step indices (1-based) whose batch the BatchRelease has reported Ready, with a
+	// current spec, under the rollout's current canary revision and plan hash (reset when either changes).
+	BrEver     bool   `json:"brEver"`   // a BatchRelease has existed since the release started
+	JumpBack   bool   `json:"jumpBack"` // the user jumped to a lower step index during this release
+	ReadySteps []int  `json:"readySteps"`
+	ReadyRev   string `json:"readyRev"`
 }
 
 // WorkloadEnv is the simulated native controller of one workload kind/style.
@@ -493,18 +499,32 @@ func (w *World) LoseMemory() {
 func (w *World) afterAction(base string) {
 	br := &v1beta1.BatchRelease{}
 	ro := &v1beta1.Rollout{}
+	if w.S.Load(NS, RolloutName, br) {
+		w.Ghost.BrEver = true
+	}
 	if !w.S.Load(NS, RolloutName, ro) {
 		return
 	}
-	canaryRev := canaryRevisionOf(ro)
-	if canaryRev != w.Ghost.ReadyRev {
-		w.Ghost.ReadyRev = canaryRev
-		w.Ghost.ReadyHigh = 0
+	key := canaryRevisionOf(ro) + "|" + ro.Annotations["rollouts.kruise.io/hash"]
+	if key != w.Ghost.ReadyRev {
+		w.Ghost.ReadyRev = key
+		w.Ghost.ReadySteps = nil
 	}
 	if w.S.Load(NS, RolloutName, br) {
-		if br.Status.CanaryStatus.CurrentBatchState == v1beta1.ReadyBatchState && br.Status.Phase == v1beta1.RolloutPhaseProgressing {
-			if b := int(br.Status.CanaryStatus.CurrentBatch) + 1; b > w.Ghost.ReadyHigh {
-				w.Ghost.ReadyHigh = b
+		w.Ghost.BrEver = true
+		if br.Status.CanaryStatus.CurrentBatchState == v1beta1.ReadyBatchState && br.Status.Phase == v1beta1.RolloutPhaseProgressing &&
+			br.Status.ObservedGeneration == br.Generation && RevOf(br.Status.UpdateRevision) == RevOf(canaryRevisionOf(ro)) &&
+			w.projectBR(ro)["planOk"] == true {
+			b := int(br.Status.CanaryStatus.CurrentBatch) + 1
+			have := false
+			for _, x := range w.Ghost.ReadySteps {
+				if x == b {
+					have = true
+				}
+			}
+			if !have {
+				w.Ghost.ReadySteps = append(w.Ghost.ReadySteps, b)
+				sort.Ints(w.Ghost.ReadySteps)
 			}
 		}
 	}
@@ -543,14 +563,32 @@ func (w *World) garbageCollect() {
 	}
 }
 
+var uidRe = regexp.MustCompile(`"uid":"(uid-[0-9]+)"`)
+
 func (w *World) gcPending() bool {
 	uids := map[string]bool{}
-	for _, k := range w.S.Keys() {
-		if uid, ok := metaOf(toMap(w.S.Raw(k)))["uid"].(string); ok {
+	var owned []Key
+	for k, raw := range w.S.objs {
+		if bytes.Contains(raw, []byte(`"ownerReferences"`)) {
+			owned = append(owned, k)
+		}
+		// the object's own uid is the last "uid" of its metadata that is not inside ownerReferences;
+		// collecting every uid mentioned would hide dangling owners, so parse only when needed below
+	}
+	if len(owned) == 0 {
+		return false
+	}
+	for _, raw := range w.S.objs {
+		if !bytes.Contains(raw, []byte(`"ownerReferences"`)) {
+			for _, m := range uidRe.FindAllSubmatch(raw, -1) {
+				uids[string(m[1])] = true
+			}
+		} else if uid, ok := metaOf(toMap(raw))["uid"].(string); ok {
 			uids[uid] = true
 		}
 	}
-	for _, k := range w.S.Keys() {
+	sort.Slice(owned, func(i, j int) bool { return owned[i].String() < owned[j].String() })
+	for _, k := range owned {
 		md := metaOf(toMap(w.S.Raw(k)))
 		refs, _ := md["ownerReferences"].([]interface{})
 		for _, r := range refs {
@@ -590,6 +628,9 @@ func (w *World) userDo(a string) error {
 		cls = a[:i]
 	}
 	w.Ghost.Used[cls]++
+	if isDisturbance(cls) {
+		w.Ghost.Used["total"]++
+	}
 	switch {
 	case a == "user.release2":
 		w.Ghost.Rev = 2
@@ -647,6 +688,9 @@ func (w *World) userDo(a string) error {
 		if ro == nil || ro.Status.GetSubStatus() == nil {
 			return nil
 		}
+		if int32(n) < ro.Status.GetSubStatus().CurrentStepIndex {
+			w.Ghost.JumpBack = true
+		}
 		ro.Status.GetSubStatus().NextStepIndex = int32(n)
 		return w.S.PutStatus(ro)
 	}
@@ -688,6 +732,11 @@ func (w *World) Enabled() []string {
 		if !w.budgetLeft(cls) {
 			continue
 		}
+		if isDisturbance(cls) {
+			if lim, ok := w.Cfg.Budget["total"]; ok && w.Ghost.Used["total"] >= lim {
+				continue
+			}
+		}
 		if w.userEnabled(a, ro) {
 			out = append(out, a)
 		}
@@ -709,7 +758,11 @@ func (w *World) userEnabled(a string, ro *v1beta1.Rollout) bool {
 	case a == "user.release3":
 		return w.Ghost.Rev == 2 && inProgress
 	case a == "user.rollback":
-		return w.Ghost.Rev >= 2 && inProgress
+		// a rollback in the property's sense: some pod already runs the revision being released
+		// (reverting the template before any pod was updated is just another template change)
+		wl := w.WL.Project(w)
+		n, _ := wl["n"].([]int)
+		return w.Ghost.Rev >= 2 && inProgress && len(n) >= w.Ghost.Rev && n[w.Ghost.Rev-1] > 0
 	case a == "user.scale":
 		return inProgress
 	case a == "user.approve":
@@ -781,6 +834,7 @@ func (w *World) Snapshot() *WorldSnapshot {
 	for k, v := range w.Ghost.Used {
 		g.Used[k] = v
 	}
+	g.ReadySteps = append([]int{}, w.Ghost.ReadySteps...)
 	return &WorldSnapshot{Store: w.S.Snapshot(), Mem: MemSnapshot{Grace: grace.DumpForVerif(), Exp: dumpResourceExpectations()}, Ghost: g}
 }
 
@@ -793,6 +847,7 @@ func (w *World) Restore(sn *WorldSnapshot) {
 	for k, v := range sn.Ghost.Used {
 		g.Used[k] = v
 	}
+	g.ReadySteps = append([]int{}, sn.Ghost.ReadySteps...)
 	w.Ghost = g
 }
 
@@ -806,4 +861,10 @@ func canaryRevisionOf(ro *v1beta1.Rollout) string {
 		return ro.Status.BlueGreenStatus.UpdatedRevision
 	}
 	return ""
+}
+
+// isDisturbance: user actions other than starting the release and approving steps count against
+// the configuration's total disturbance budget.
+func isDisturbance(cls string) bool {
+	return strings.HasPrefix(cls, "user.") && cls != "user.release2" && cls != "user.approve"
 }
